@@ -243,6 +243,7 @@ pub fn run_c01(ctx: &Ctx) -> Outcome {
         }
     }
     crate::props::tree::run_tree(ctx, &mut out, ctx.n(3, 5) as usize, crate::props::tree::TreeOracle::C01);
+    crate::props::tree::run_tall(ctx, &mut out);
     out.assumptions = vec![
         "reference semantics = CPython pickletools.dis flat stack (MARK is an ordinary element), not a real unpickler".into(),
         "refpvm opcode table equals pickletools.opcodes of the installed CPython (checked at setup and by `pfverif selftest`)".into(),
